@@ -186,6 +186,13 @@ def intrinsic_types(tier):
         for start in range(len(fixed)):
             for step in (1, 3):
                 yield ["struct", [fixed[(start + i * step) % len(fixed)] for i in range(n)]]
+    # dependencies whose extent (and length) is ZERO: an empty sealed structure, an empty type with @extent 0, a structure of empties
+    empties = [["struct", []], ["delim", ["struct", []], 0], ["struct", [["struct", []]]], ["struct", [["farr", ["struct", []], 3]]]]
+    for e in empties:
+        yield ["struct", [e]]
+        yield ["struct", [["bool"], e, ["uint", 8, "s"]]]
+        yield ["union", [e, ["bool"]]]
+        yield ["struct", [["varr", e, 2], ["uint", 3, "s"]]]
     a = ["union", [["uint", 8, "s"], ["uint", 16, "s"], ["uint", 48, "s"]]]  # {16, 24, 56}
     b = ["union", [["uint", 8, "s"], ["uint", 16, "s"], ["uint", 40, "s"], ["uint", 48, "s"]]]  # {16, 24, 48, 56}: same min, max, residues mod 32
     for n in (3, 16, 17, 18):
